@@ -252,7 +252,7 @@ def run(rep):
 def selftest_shape(t):
     ks = [e["k"] for e in t["ev"]]
     # second event: one that neither reads nor writes g, so that dropping the first shows as a state mismatch
-    return t["nc"] >= 2 and len(ks) >= 2 and ks[0] in ("defvar", "set") and "reenter" not in ks and ks[1] in (
+    return t["nc"] >= 2 and len(ks) >= 2 and t["ev"][0]["c"] == t["ev"][1]["c"] and ks[0] in ("defvar", "set") and "reenter" not in ks and ks[1] in (
         "deffun", "delete", "mut_objproto", "mut_math", "mut_arrproto", "mut_strctor", "mut_errproto", "syntax")
 
 
